@@ -60,6 +60,9 @@ class Batch:
             p = os.path.join(self.dir, "fx", d)
             os.makedirs(p, exist_ok=True)
             open(os.path.join(p, "fixture.go"), "w").write(fixture_text(pkg, path))
+        sp = os.path.join(self.dir, "fx", "gv.test/fix/serial")
+        os.makedirs(sp, exist_ok=True)
+        open(os.path.join(sp, "serial.go"), "w").write("// Package serial hands out allocation serial numbers shared by every fixture package.\npackage serial\n\nimport \"sync/atomic\"\n\nvar n int64\n\nfunc Next() int64 { return atomic.AddInt64(&n, 1) }\n")
         self.items = {}
 
     def add(self, name, source, pkg, extra_files=None):
